@@ -293,6 +293,11 @@ fn printed_unit_ok(text: &str, info: &LineInfo) -> Result<bool, String> {
     if info.value_is_one && found.iter().all(|f| f.iter().any(|p| *p)) {
         return Err(format!("the value is one but the unit is printed in a plural form: {text:?}"));
     }
+    // "3 metres per decade": what is counted is the numerator; a name after the `/` is a
+    // "per <unit>" and never takes the plural
+    if found.iter().all(|f| f.iter().zip(items.iter()).any(|(p, it)| *p && it.1 < 0)) {
+        return Err(format!("a unit after the `/` is printed in a plural form: {text:?}"));
+    }
     Ok(true)
 }
 
@@ -331,6 +336,7 @@ impl Prop for C19 {
         vec![
             "the decimal rendering itself (Rational::display, limit 12/exponent 12) is C08's subject; here it is taken from the library".into(),
             "the statement fixes no exit code; only exit by signal or the panic code 101 count as violations".into(),
+            "\"the unit name pluralised\" is read as the counted (numerator) name: a plural form after the `/` (`3 m/decades`) is reported".into(),
         ]
     }
     fn generate(&self, tier: Tier, sink: &mut dyn FnMut(Case)) {
